@@ -4,6 +4,7 @@ import json, shutil, sys
 from pathlib import Path
 VERIF = Path(__file__).resolve().parent.parent
 prop, wt = sys.argv[1], Path(sys.argv[2])
+offset = int(sys.argv[3]) if len(sys.argv) > 3 else 0      # later rounds: seeded/<PROP>-<i + offset>
 for i in (1, 2, 3):
     st = wt / f"seedtest_{i}.json"
     if not st.exists():
@@ -12,7 +13,7 @@ for i in (1, 2, 3):
     if not t.get("confirm", {}).get("ok"):
         print(prop, i, "not confirmed: skipped")
         continue
-    dst = VERIF / "seeded" / f"{prop}-{i}"
+    dst = VERIF / "seeded" / f"{prop}-{i + offset}"
     dst.mkdir(parents=True, exist_ok=True)
     shutil.copy(wt / f"mut{i}.diff", dst / "patch.diff")
     shutil.copy(wt / f"demo{i}.py", dst / "demo.py")
